@@ -124,7 +124,8 @@ def main():
         root = sys.argv[2]
         only = sys.argv[3:]
         results = {}
-        rpath = os.path.join(VERIF, "seeded", "results2.json" if "seed2" in root else "results3.json" if "seed3" in root else "results4.json" if "seed4" in root else "results.json")
+        _m = re.search(r"seed(\d+)", root)
+        rpath = os.path.join(VERIF, "seeded", ("results%s.json" % _m.group(1)) if _m else "results.json")
         if os.path.exists(rpath):
             results = json.load(open(rpath))
         for od in sorted(glob.glob(os.path.join(root, "out_*"))):
